@@ -166,15 +166,19 @@ theorem scheduled_thread_is_sequential (y : Sys) (σ : List Nat) (hS : y.hookSet
   · simp [finalCfg]
   · simp [finalCfg]
 
-/-- **Note F7 (sub-call granularity, outside the property's quantifier).**
-`panic_catcher_set_hook` is `load; take_hook; set_hook; store` without mutual exclusion.
+/-- **F7 (sub-call granularity).**
+`panic_catcher_set_hook` is `load; take_hook; set_hook; store`. The code now holds a lock around
+these four actions (a `fix:` commit in /repo: without it two racing first calls were replayed on
+real threads through cfg-guarded pause points and a third party's `catch_panic` lost its
+message), so the call is atomic, which is what the model's `doSetHook` is.
 As one atomic call it keeps the previous hook reachable … -/
 theorem setHook_atomic_keeps_previous (s : St) (h : s.hook.reachesSentinel = true) :
     (doSetHook s).hook.reachesSentinel = true := by
   unfold doSetHook
   split <;> simp [Hook.reachesSentinel, h]
 
-/-- … but two first calls interleaved at the level of those four actions lose it: the second
+/-- … whereas two first calls interleaved at the level of those four actions (the code before
+the fix) lose it: the second
 `take_hook` takes std's default hook that the first `take_hook` left behind, and its
 `set_hook` overwrites the first thread's closure — the sentinel is no longer called. -/
 theorem setHook_not_atomic_loses_previous :
